@@ -474,6 +474,10 @@ def assign_sizes(d, sizeset):
             v = PRIMES[i % len(PRIMES)]
         elif sizeset == "all2":
             v = 2
+        elif sizeset == "all3":
+            v = 3
+        elif sizeset in ("x2", "x3"):
+            v = PRIMES[i % len(PRIMES)] * int(sizeset[1])
         else:
             u = int(sizeset[4:])
             if u >= len(names):
@@ -481,12 +485,15 @@ def assign_sizes(d, sizeset):
             v = 1 if i == u else PRIMES[i % len(PRIMES)]
         if n in d.env:   # ellipsis axis with count c
             c = d.env[n][1]
-            v = tuple([v, v + 1, v + 2][:c]) if sizeset == "distinct" else tuple([v] * c)
+            if sizeset == "distinct": v = tuple([v, v + 1, v + 2][:c])
+            elif sizeset in ("x2", "x3"): v = tuple(q * int(sizeset[1]) for q in [v // int(sizeset[1]), v // int(sizeset[1]) + 1, v // int(sizeset[1]) + 2][:c])
+            else: v = tuple([v] * c)
         env[n] = v
     if "..." in d.env:
         c = d.env["..."][1]
-        base = PRIMES[len(names) % len(PRIMES)] if sizeset == "distinct" else 2
-        env["..."] = tuple([base, base + 1, base + 2][:c]) if sizeset == "distinct" else tuple([base] * c)
+        m = int(sizeset[1]) if sizeset in ("x2", "x3") else 1
+        base = PRIMES[len(names) % len(PRIMES)] if sizeset in ("distinct", "x2", "x3") else (3 if sizeset == "all3" else 2)
+        env["..."] = tuple(q * m for q in [base, base + 1, base + 2][:c]) if sizeset in ("distinct", "x2", "x3") else tuple([base] * c)
     return env
 
 
@@ -611,6 +618,18 @@ def materialize(d, sizeset):
         nb = sum(1 for n, b in R.leaf_axes(ex[0]) if b)
         kw["shift"] = tuple(range(1, nb + 1)) if nb != 1 else 1
     return Call(d.op, desc, in_shapes, sizes, kw, env, d.decos, sizeset)
+
+
+def corpus_descs(ops, Rk, k, menu=None):
+    """the descriptions themselves (before sizes are chosen), deduplicated by printed form"""
+    seen = set()
+    for op in ops:
+        for sk in skeletons(op, Rk):
+            for d in decorated(sk, k, menu):
+                key = (op, show(d), repr(sorted((a, b) for a, b in d.env.items())))
+                if key not in seen:
+                    seen.add(key)
+                    yield d
 
 
 def corpus(ops, Rk, k, sizesets=("distinct", "all2"), menu=None, limit=None):
